@@ -11,6 +11,7 @@ import (
 	"os"
 	"strconv"
 	"strings"
+	"sync"
 )
 
 const hexdigits = "0123456789abcdef"
@@ -219,6 +220,9 @@ func Exec(newCase func(id string), step func(ws []string) string) {
 		if line != "" {
 			ws := strings.Fields(line)
 			if ws[0] == "case" {
+				if caseMark {
+					fmt.Fprintf(os.Stderr, "@@CASE %s\n", ws[1])
+				}
 				fmt.Fprintln(out, line)
 				CurCase = ws[1]
 				CurOp = 0
@@ -254,6 +258,9 @@ func safeStep(step func([]string) string, ws []string) (reply string, panicked b
 	return step(ws), false
 }
 
+var caseMark = os.Getenv("VERIF_CASE_MARK") == "1"
+var failMu sync.Mutex
+
 var (
 	CurCase  string
 	CurOp    int
@@ -263,6 +270,8 @@ var (
 
 // Fail records a failure of the property's own oracle on the implementation.
 func Fail(msg string) {
+	failMu.Lock()
+	defer failMu.Unlock()
 	Fails++
 	if failFile == nil {
 		name := os.Getenv("VERIF_ORACLE_OUT")
